@@ -11,14 +11,14 @@ Trace == ndJsonDeserialize("cases.ndjson")
 VARIABLES l, bad, stats
 vars == <<l, bad, stats>>
 
-NormMs(m) == [k \in DOMAIN m |-> NormSt(m[k])]
+NormMs(m) == [k \in DOMAIN m |-> CoarseSt(NormSt(m[k]))]
 RECURSIVE Replay(_, _, _)
 \* returns the set of step indexes at which the observation differs from the model
 Replay(c, i, cur) ==
   IF i > Len(c.steps) THEN {}
   ELSE LET r == ProcessMsg(cur, c.steps[i].msg)
            obs == c.steps[i]
-           same == /\ [k \in DOMAIN r.ms |-> NormSt(r.ms[k].st)] = NormMs(obs.states)
+           same == /\ [k \in DOMAIN r.ms |-> CoarseSt(NormSt(r.ms[k].st))] = NormMs(obs.states)
                    /\ SameBag(r.emitted, obs.emitted)
        IN (IF r.det /\ ~same THEN {i} ELSE {}) \cup (IF r.det THEN Replay(c, i + 1, r.ms) ELSE {})
 Labels(c) == IF c.outcome # "returned" THEN {"crash"} ELSE
